@@ -684,6 +684,16 @@ func (d *LimbDom) Mul64(in *Interp, x, y Val, pos ssa.Instruction) (hi, lo Val) 
 }
 
 func (d *LimbDom) Add64(in *Interp, x, y, c Val, pos ssa.Instruction) (sum, carry Val) {
+	// adding into an empty accumulator: 0 + h + 0 = h, no carry (either half)
+	isZero := func(v Val) bool { i, ok := v.(Int); return ok && i.V.Sign() == 0 }
+	if isZero(c) {
+		if _, isHalf := y.(Half); isHalf && isZero(x) {
+			return y, MkInt(0)
+		}
+		if _, isHalf := x.(Half); isHalf && isZero(y) {
+			return x, MkInt(0)
+		}
+	}
 	hx, okx := x.(Half)
 	hy, oky := y.(Half)
 	if okx && oky && !hx.High && !hy.High {
@@ -728,6 +738,13 @@ func (d *LimbDom) Call(in *Interp, site ssa.Instruction, fn *ssa.Function, args 
 	case "math/bits.Add64":
 		s, c := d.Add64(in, args[0], args[1], args[2], site)
 		return []Val{s, c}, true
+	case "crypto/subtle.ConstantTimeEq", "crypto/subtle.ConstantTimeByteEq", "crypto/subtle.ConstantTimeLessOrEq":
+		if _, ok := args[0].(Int); ok {
+			if _, ok := args[1].(Int); ok {
+				return nil, false // concrete: the core evaluates it
+			}
+		}
+		return []Val{d.mk(big.NewInt(0), big.NewInt(1), nil)}, true
 	case "crypto/subtle.ConstantTimeCompare":
 		a, b := in.SliceElems(site, args[0]), in.SliceElems(site, args[1])
 		if len(a) != len(b) {
